@@ -506,4 +506,64 @@ struct ScaledMixed {
     }
     static void reg(char const* nm) { add_site({std::string("C12|scaled-mixed|") + nm, run, enum_size(), run_enum}); }
 };
+////////////////////////////////////////////////////////////////////////////////
+// ++ / -- on a scaled_integer with any exponent and radix are equivalent to adding / subtracting one (x = x + 1 converted back to
+// x's type: truncation toward zero at x's resolution); the prefix forms return the new value, the postfix forms the old one
+template<class Rep, int E, int Radix>
+struct IncDecScaled {
+    using S = cnl::scaled_integer<Rep, cnl::power<E, Radix>>;
+    static char const* name(int op)
+    {
+        static char const* n[] = {"++x", "x++", "--x", "x--", "x+=1", "x-=1"};
+        return n[op];
+    }
+    static void check(int op, mpz_class const& zr, Outcome& o, std::string* d)
+    {
+        if (d) *d = std::string(name(op)) + " rep=" + zstr(zr);
+        o.fp = fpn(zr, op);
+        mpq_class unit = qpow(Radix, E), v = mkq(zr) * unit;
+        bool const inc = op == 0 || op == 1 || op == 4;
+        mpq_class nv = inc ? mpq_class(v + 1) : mpq_class(v - 1);
+        mpz_class nr = q_trunc(nv / unit);
+        // preconditions of the underlying x + 1: one, aligned to x's exponent, and the sum fit the promoted representation
+        using P = decltype(+std::declval<Rep>());
+        mpz_class one = E <= 0 ? zpow(Radix, -E) : mpz_class(0);
+        if (E <= 0 && (!fits<P>(one) || !fits<P>(zr + one) || !fits<P>(zr - one))) return o.discard("aligned-one-does-not-fit");
+        if (E > 0 && (!fits<P>(zr * zpow(Radix, E)) || !fits<P>(zr * zpow(Radix, E) + 1) || !fits<P>(zr * zpow(Radix, E) - 1))) return o.discard("aligned-operand-does-not-fit");
+        if (!fits<Rep>(nr)) return o.discard("result-does-not-fit");
+        mpz_class got_rep, got_ret;
+        bool ok = guard(o, [&] {
+            S x = cnl::_impl::from_rep<S>(wrap_to<Rep>(zr));
+            switch (op) {
+            case 0: got_ret = rep_mpz(++x); break;
+            case 1: got_ret = rep_mpz(x++); break;
+            case 2: got_ret = rep_mpz(--x); break;
+            case 3: got_ret = rep_mpz(x--); break;
+            case 4: x += 1, got_ret = rep_mpz(x); break;
+            default: x -= 1, got_ret = rep_mpz(x);
+            }
+            got_rep = rep_mpz(x);
+        });
+        if (!ok) {
+            o.fclass = std::string("incdec") + name(op) + "/" + o.fclass;
+            return;
+        }
+        if (got_rep != nr) return o.fail(std::string("incdec") + name(op) + "/value-mismatch", "expected rep " + zstr(nr) + " got " + zstr(got_rep));
+        mpz_class want_ret = (op == 1 || op == 3) ? zr : nr;
+        if (got_ret != want_ret) return o.fail(std::string("incdec") + name(op) + "/returned-value", "expected rep " + zstr(want_ret) + " got " + zstr(got_ret));
+        o.pass(E != 0, name(op));
+    }
+    static void run(Words& w, Outcome& o, std::string* d)
+    {
+        int op = int(draw_small(w, 0, 5));
+        check(op, to_mpz(draw_int<Rep>(w)), o, d);
+    }
+    static constexpr std::uint64_t enum_size() { return bits_v<Rep> <= 16 ? (std::uint64_t{6} << bits_v<Rep>) : 0; }
+    static void run_enum(std::uint64_t idx, Outcome& o, std::string* d)
+    {
+        using U = make_unsigned_t<Rep>;
+        check(int(idx >> bits_v<Rep>), to_mpz(static_cast<Rep>(static_cast<U>(idx))), o, d);
+    }
+    static void reg(char const* name_) { add_site({std::string("C12|incdec-scaled|") + name_, run, enum_size(), run_enum}); }
+};
 }  // namespace c12
